@@ -213,6 +213,13 @@ theorem signedArea_translate (es : List (Edge K)) (a : K × K) (vx vy : K) (h : 
   rw [hc] at this
   simp only [signedArea, this]; ring
 
+/-- **the repaired `signed_area` (measured from the path's first point) is the shoelace area for every closed chain** — so every
+    theorem about `signedArea` holds for what the code computes -/
+theorem signedAreaFrom_eq (e : Edge K) (es : List (Edge K)) (h : ChainFrom (e.sx, e.sy) (e :: es)) (hc : endOf (e.sx, e.sy) (e :: es) = (e.sx, e.sy)) :
+    signedAreaFrom (e :: es) = signedArea (e :: es) := by
+  simp only [signedAreaFrom]
+  exact signedArea_translate (e :: es) (e.sx, e.sy) (-e.sx) (-e.sy) h hc
+
 theorem signedArea_reverse (es : List (Edge K)) :
     signedArea ((es.map Edge.rev).reverse) = - signedArea es := by
   simp only [signedArea, shoelace2, List.map_reverse, List.sum_reverse, List.map_map]
